@@ -43,9 +43,15 @@ def allsky(ctx, crate, rec, it):
         # push_all pushes build_raw_value(depth, h, are_full) for h in from..to
         e = Engine(crate, opaque={"nested::bmoc::build_raw_value"}); e.run(pa); ctx.functions |= e.visited_fns
         brv = [x for x in e.events.values() if x.callee == "nested::bmoc::build_raw_value"]
-        it_ev = [x for x in e.events.values() if x.callee and "IntoIterator>::into_iter" in strip_generics(x.callee)]
-        okr = len(brv) == 1 and brv[0].args[0] == param("depth") and brv[0].args[2] == param("are_full") and len(it_ev) == 1 and it_ev[0].args[0][0] == 'agg' \
-            and it_ev[0].args[0][3] == (param("from_hash"), param("to_hash"))
+        from rules.common import loop_var_range, loop_bound_from_facts
+        okr = len(brv) == 1 and brv[0].args[0] == param("depth") and brv[0].args[2] == param("are_full")
+        if okr:
+            lr = loop_var_range(e, brv[0].args[1])
+            if lr is None: okr = False
+            else:
+                start, end = lr
+                if end is None: end = loop_bound_from_facts(brv[0].facts, brv[0].args[1])
+                okr = start == param("from_hash") and end == param("to_hash")
         ctx.report(clause, pa + ":range-from..to-same-depth-and-flag", okr, "push_all iterates h over from_hash..to_hash and pushes build_raw_value(depth, h, are_full, depth_max)", at=crate.body(pa).span)
 
 
